@@ -6,8 +6,9 @@ lines from the real crate, plus the read-back oracle, is `harness/src/prop/c13.r
 
 ```
 ENC  := <ver> <asz> <minlen> <maxops> <stmt> <lbase> <lrange>
-ROW  := <address_offset>,<op_index>,<file|~>,<line>,<column>,<discriminator>,<flags>,<isa>
-        flags = 1 is_statement + 2 basic_block + 4 prologue_end + 8 epilogue_begin;
+ROW  := <address_offset>,<op_index>,<file|~>,<line>,<column>,<discriminator|~>,<flags>,<isa>
+        flags = 1 is_statement + 2 basic_block + 4 prologue_end + 8 epilogue_begin, + 16: do not
+        assign the three per-row flags (`~` / 16: the field keeps what `generate_row` left in it);
         file = position in `LineProgram::files()` (kept when `~` or out of range)
 STR  := <s|p|l>:<hex>          LineString::String / StringRef(.debug_str) / LineStringRef(.debug_line_str)
 INFO := ~ | <timestamp>;<size>;<md5-hex>;<~ | <s|p|l>,<hex>>
@@ -68,7 +69,7 @@ structure RowReq where
   file : Option Nat
   line : Nat
   col : Nat
-  disc : Nat
+  disc : Option Nat
   flags : Nat
   isa : Nat
 
@@ -76,8 +77,9 @@ def parseRow (s : String) : Option RowReq :=
   match s.splitOn "," with
   | [off, op, file, line, col, disc, flags, isa] => do
     let file ← (if file == "~" then some none else (u64? file).map some)
+    let disc ← (if disc == "~" then some none else (u64? disc).map some)
     pure { off := (← u64? off), op := (← u64? op), file, line := (← u64? line), col := (← u64? col),
-           disc := (← u64? disc), flags := (← u64? flags), isa := (← u64? isa) }
+           disc, flags := (← u64? flags), isa := (← u64? isa) }
   | _ => none
 
 /-- what the harness's `set_row` does to `LineProgram::row()` -/
@@ -85,9 +87,12 @@ def setRow (p : Prog) (r : RowReq) : Prog :=
   let file := match r.file with
     | some k => if k < p.files.length then k else p.row.file
     | none => p.row.file
+  let keep := r.flags / 16 % 2 = 1
   { p with row := { addressOffset := r.off, opIndex := r.op, file, line := r.line, column := r.col,
-                    discriminator := r.disc, isStmt := r.flags % 2 = 1, basicBlock := r.flags / 2 % 2 = 1,
-                    prologueEnd := r.flags / 4 % 2 = 1, epilogueBegin := r.flags / 8 % 2 = 1,
+                    discriminator := r.disc.getD p.row.discriminator, isStmt := r.flags % 2 = 1,
+                    basicBlock := if keep then p.row.basicBlock else r.flags / 2 % 2 = 1,
+                    prologueEnd := if keep then p.row.prologueEnd else r.flags / 4 % 2 = 1,
+                    epilogueBegin := if keep then p.row.epilogueBegin else r.flags / 8 % 2 = 1,
                     isa := r.isa } }
 
 def strS : LineStr := { form := .string, val := [] }
